@@ -369,8 +369,14 @@ Definition ns_mon_step (c : ns_cfg) (m : ns_mon) (e : ns_ev) (o : list ns_out) :
       end
   | NsAck mid | NsRst mid =>
     ns_mon_finish c (ns_mest m) (ns_rm_mid mid infl0) (ns_mpend m) o
-  | NsTick _ =>
-    ns_mon_finish c (ns_mest m) infl0 (ns_mpend m) o
+  | NsTick mid =>
+    (* the timer of a message that counts as in flight retransmits it or gives it up: a message
+       the session still counts but no longer has in its send queue would block its slot for ever *)
+    if existsb (fun y => ns_mid y =? mid) (ns_minfl m) &&
+       negb (existsb (fun x => x =? mid) (ns_gaveup o) ||
+             existsb (fun y => ns_mid y =? mid) (ns_res o))
+    then None
+    else ns_mon_finish c (ns_mest m) infl0 (ns_mpend m) o
   | NsSep tok =>
     ns_mon_finish c (ns_mest m) (filter (fun y => negb (ns_tok y =? tok)) infl0) (ns_mpend m) o
   | NsUp =>
